@@ -38,7 +38,7 @@ const (
 )
 
 // OpTimeout bounds Open/Close/Write of the real shard.
-var OpTimeout = 20 * time.Second
+var OpTimeout = 150 * time.Second
 
 type idSets []*tsdb.SeriesIDSet
 
@@ -750,7 +750,19 @@ func copyTree(src, dst string) error {
 		if err != nil {
 			return err
 		}
-		return os.WriteFile(q, b, 0666)
+		// pre-allocated files (series file segments) end in megabytes of zeros:
+		// keep them sparse in the copy
+		n := len(b)
+		for n > 0 && b[n-1] == 0 {
+			n--
+		}
+		if err := os.WriteFile(q, b[:n], 0666); err != nil {
+			return err
+		}
+		if n < len(b) {
+			return os.Truncate(q, int64(len(b)))
+		}
+		return nil
 	})
 }
 
